@@ -21,6 +21,7 @@ import (
 	"seata.apache.org/seata-go/pkg/protocol/codec"
 	"seata.apache.org/seata-go/pkg/protocol/message"
 	"seata.apache.org/seata-go/pkg/remoting/loadbalance"
+	rmclient "seata.apache.org/seata-go/pkg/remoting/processor/client"
 	"seata.apache.org/seata-go/pkg/rm"
 	"seata.apache.org/seata-go/pkg/rm/tcc"
 	fencehandler "seata.apache.org/seata-go/pkg/rm/tcc/fence/handler"
@@ -239,6 +240,11 @@ func runC20(c *Ctx) {
 			for k := 0; k < 30; k++ {
 				sql2.RegisterTxHook(c20Hook{})
 				codec.GetCodecManager().GetCodec(codec.CodecTypeSeata, 1)
+				if k%10 == 0 {
+					// the client registers its processors after its sessions are open (client.Init does so for the
+					// resource manager's): messages are being delivered meanwhile
+					rmclient.RegisterProcessor()
+				}
 				if k%5 == 0 {
 					// an application registering a codec of its own while messages are being encoded
 					codec.GetCodecManager().RegisterCodec(codec.CodecType(0x7f), &codec.GlobalBeginRequestCodec{})
